@@ -33,7 +33,8 @@ LEVEL_TEXT = ("Exploration by generated programs: (a) well-typed ASTs in several
               "parentheses or inside a nested filter must raise a JSONPathError from compile() and from findall() before "
               "any read of the document (a Mapping spy); (c) all expression trees of depth <= 2 over 19 leaf forms are "
               "classified by the reference checker and compared; (d) index / slice bounds at limit-1, limit, limit+1 "
-              "under default and three narrowed configurations, leading zeros, empty and comma-terminated lists.")
+              "under default and three narrowed configurations, leading zeros, empty and comma-terminated lists."
+              ' Also exhaustive: match / search with an ill-typed argument in either slot while the other slot holds each well-typed kind (literal, singular query, ValueType function) at every position; every delicate member name as a quoted selector and as a string literal must compile.')
 LEVEL_TEXT += ' Also: text-level mutants of rendered queries classified by an independent hand-written RFC 9535 parser + the typing checker: well-formed and well-typed must compile; well-formed but for a listed refusal (leading-zero index, empty / comma-terminated list, out-of-range bound, uncompared literal, typing rule) must be refused at compile time.'
 BUDGET_S = {"quick": 70, "thorough": 500}
 RULE = ("Valid class: FilterGen ASTs (well-typed by construction and confirmed by the reference checker). Invalid class: one "
